@@ -47,6 +47,6 @@ META = dict(
     design_ref="DESIGN.md §6 C04",
     note="Trusted: Lean kernel + 3 standard axioms; the list-level wrapper semantics is hand-written (the Nd-level view algebra of the "
          "template is covered by C01/C02, not re-proved here); Go goroutine scheduling irrelevant to this property (see C05).",
-    technique="Lean 4 proof (induction over cells) + differential correspondence of vectorised runs + single-cell re-run oracle",
+    technique="Lean 4 proof (induction over cells) + differential correspondence of vectorised runs + single-cell re-run oracle + regenerated structural facts as proof obligations with a race-detector probe for a witness",
 )
 READY = True
